@@ -71,11 +71,12 @@ func protectedLeaf(leaf string) bool {
 		}
 	}
 	if strings.HasPrefix(leaf, "G:"+r+".") {
+		// package-level variables are configuration / tables, except the few that the logging path itself updates
 		switch leaf[len("G:"+r+"."):] {
-		case "flags", "inTesting", "defaultWriter", "defaultLog", "mLevelIsEnabledAs", "mLevelUseErrorDevice", "mLevelColors",
-			"levelToString", "stringToLevel", "shortTagMap", "allLevels", "levelOutputWidth", "minimalMessageWidth", "discardWriter", "lvlCurrent":
-			return true
+		case "fixedSize":
+			return false
 		}
+		return !strings.HasPrefix(leaf, "G:"+r+".pool")
 	}
 	return false
 }
